@@ -69,9 +69,9 @@ func (C17) Meta() core.Meta {
 
 func (C17) Runs(tier string) uint64 {
 	if tier == "thorough" {
-		return 600000
+		return 2000000
 	}
-	return 24000
+	return 60000
 }
 
 var sharedOps = []string{"String", "Clone", "CloneExpr", "WalkFunc", "WalkNil", "Eval", "EvalBool", "EvalFields", "Reduce", "ReduceExpr", "RewriteFields", "ConditionExpr", "EvalType", "TypeValuerEval", "FieldDimensions", "ColumnNames", "FieldExprByName", "Names", "AliasNames", "Measurements", "RequiredPrivileges", "HasWildcard", "ExprNames", "HasTimeExpr", "TimeAscending", "ContainsVarRef", "IsSelector", "BinaryExprName", "Normalize"}
